@@ -30,6 +30,12 @@ class Rec:
         self.name = name; self.f = f
 
 
+class Iter:
+    """iterator value: position `off` in the sequence designated by IR expression `base`"""
+    def __init__(self, base, off):
+        self.base = base; self.off = off
+
+
 class Fun:
     def __init__(self, uf, spec=None, lam=None):
         self.uf = uf; self.spec = spec; self.lam = lam
@@ -232,7 +238,7 @@ class Engine:
             return Seq(a.et, z3.If(c, a.arr, b.arr), z3.If(c, a.n, b.n), None if a.lens is None else z3.If(c, a.lens, b.lens))
         if isinstance(a, Rec):
             return Rec(a.name, {k: self.ite_val(c, a.f[k], b.f[k]) for k in a.f})
-        if isinstance(a, (Fun, Str)) or a is None: return a
+        if isinstance(a, (Fun, Str, Iter)) or a is None: return a
         if a is b: return a
         a, b = self.unify(a, b)
         return z3.If(c, a, b)
@@ -596,6 +602,13 @@ class Engine:
             else:
                 st.assume(Quant('k', lo, hi, (lambda k, s=s, r=r: r >= z3.Select(s.arr, k)), 'max_element'))
             return r
+        if fn in ('seq.begin', 'seq.end'):
+            sq = self.ev_quiet(e.args[0], st)
+            return Iter(e.args[0], z3.IntVal(0) if fn == 'seq.begin' else sq.n)
+        if fn in ('iter+', 'iter-'):
+            it = self.ev(e.args[0], st); d = self.ev(e.args[1], st)
+            if not isinstance(it, Iter): raise E2Error('iterator arithmetic on non-iterator')
+            return Iter(it.base, it.off + d if fn == 'iter+' else it.off - d)
         if fn == 'str.eq':
             a = self.ev(e.args[0], st); b = self.ev(e.args[1], st)
             if a.v is not None and b.v is not None: return z3.BoolVal(a.v == b.v)
@@ -610,21 +623,10 @@ class Engine:
         raise E2Error('primitive %s in value position' % fn)
 
     def iter_range(self, a, b, st):
-        def it(x):
-            off = z3.IntVal(0)
-            while x.k == 'call' and x.fn in ('iter+', 'iter-'):
-                d = self.ev(x.args[1], st)
-                off = off + d if x.fn == 'iter+' else off - d
-                x = x.args[0]
-            if x.k == 'call' and x.fn == 'seq.begin':
-                return x.args[0], off
-            if x.k == 'call' and x.fn == 'seq.end':
-                s = self.ev(x.args[0], st)
-                return x.args[0], s.n + off
-            raise E2Error('iterator expression %s' % IR.pp_expr(x))
-        s1, lo = it(a); s2, hi = it(b)
-        if IR.pp_expr(s1) != IR.pp_expr(s2): raise E2Error('iterator range over two sequences')
-        return self.ev(s1, st), lo, hi
+        ia = self.ev(a, st); ib = self.ev(b, st)
+        if not isinstance(ia, Iter) or not isinstance(ib, Iter): raise E2Error('iterator range expected')
+        if IR.pp_expr(ia.base) != IR.pp_expr(ib.base): raise E2Error('iterator range over two sequences')
+        return self.ev_quiet(ia.base, st), ia.off, ib.off
 
     # ------------------------------------------------------------ lvalues
     def assign(self, lhs, val, st):
@@ -794,6 +796,8 @@ class Engine:
         self.lemmas_used.add(c.name)
         if getattr(lm, 'is_axiom', False):
             self.notes.append('definitional axiom %s used (well-definedness: %s)' % (c.name, ' '.join(lm.options.get('justified_by', ['UNJUSTIFIED']))))
+        if getattr(c, 'forall', None) is not None:
+            return self.use_lemma_forall(c, lm, st, bound)
         args = [self.sv(a, st, bound) for a in c.args]
         if len(args) != len(lm.params): raise E2Error('lemma %s arity' % c.name)
         s2 = st.clone(); s2.env = {}; s2.scope = None; s2.ghost = {}
@@ -811,6 +815,44 @@ class Engine:
                 if cond is None: st.assume(v)
                 elif isinstance(v, Quant): st.assume(self._guard(v, cond))
                 else: st.assume(z3.Implies(cond, v))
+
+    def use_lemma_forall(self, c, lm, st, bound=None):
+        """assume  forall v in [lo,hi): requires(v) ==> ensures(v)  (the lemma itself is proved separately)"""
+        var, lox, hix = c.forall
+        lo = self.sv(lox, st, bound); hi = self.sv(hix, st, bound)
+        frozen = st.clone(); frozen.env = dict(st.env)
+        from .solve import contains
+        def parts(k):
+            b2 = dict(bound or {}); b2[var] = k
+            args = [self.sv(a, frozen, b2) for a in c.args]
+            s2 = frozen.clone(); s2.env = {}; s2.scope = None; s2.ghost = {}
+            for (t, n), a in zip(lm.params, args):
+                if t == 'real' and not isinstance(a, Seq): a = self.to_real(a)
+                s2.env[n] = a
+            pre = []; post = []
+            for cl in lm.requires:
+                for cj in self.clause_conjuncts(cl.expr):
+                    for v in self.clause_vals(cj, s2): pre.append((v, SP.show(cj)))
+            for cl in lm.ensures:
+                for v in self.clause_vals(cl.expr, s2): post.append(v)
+            return pre, post, s2
+        # preconditions that do not depend on the bound variable are obligations here, once
+        k0 = fresh(var + '!u', z3.IntSort())
+        pre0, post0, s20 = parts(k0)
+        dep = []
+        for n_, (v, txt) in enumerate(pre0):
+            d = contains(v.inst(*[z3.Int('q!probe%d' % j) for j in range(len(v.vars))]), k0) if isinstance(v, Quant) else contains(v, k0)
+            dep.append(d)
+            if not d:
+                self.oblige(s20, v, 'lemma.requires', 'use_forall %s: %s' % (c.name, txt))
+            elif isinstance(v, Quant):
+                raise E2Error('use_forall %s: quantified precondition depends on the bound variable' % c.name)
+        def fn(k, dep=dep):
+            pre, post, _ = parts(k)
+            ante = [v for (v, txt), d in zip(pre, dep) if d]
+            cons = [v.as_forall() if isinstance(v, Quant) else v for v in post]
+            return z3.Implies(z3.And(*ante) if ante else z3.BoolVal(True), z3.And(*cons))
+        st.assume(Quant(var, lo, hi, fn, 'use_forall %s: %s' % (var, c.name)))
 
     def assume_validity(self, x, st, positive):
         """assume valid (conjunction, quantifiers as Quant) or its negation (quantified conjuncts skolemised)"""
@@ -1264,6 +1306,9 @@ class Verifier(Engine):
                 if key not in st.env: st.env[key] = self.fresh_val(s.t, 'static.' + s.name, st)
                 v = st.env[key]
             st.env[s.name] = v
+            if self.cur is not None and getattr(self.cur, 'uses_after', None):
+                for u in self.cur.uses_after.get(s.name.split('__')[0], []):
+                    self.use_lemma(u, st)
             return [(st, 'normal', None)]
         if k == 'assign':
             v = self.ev(s.rhs, st)
